@@ -37,10 +37,20 @@ Definition sort_str (l : list string) : list string := fold_right insert_sorted 
 
 Definition order_alpha (sel : list string) : list string := sort_str sel.
 
-(* for feature in selected_feature_names: matching = [col for col in selected if owns]; matching.sort(); result.extend(matching)
+Definition mem_str (x : string) (l : list string) : bool := existsb (String.eqb x) l.
+
+(* result.extend(col for col in matching_cols if col not in result): the generator is consumed while [res] grows *)
+Fixpoint extend_new (res block : list string) : list string :=
+  match block with
+  | [] => res
+  | c :: t => extend_new (if mem_str c res then res else res ++ [c]) t
+  end.
+
+(* for feature in selected_feature_names: matching = [col for col in selected if owns]; matching.sort();
+   result.extend(col for col in matching if col not in result)
    [iter] = iteration order of the set selected_feature_names *)
 Definition order_request (iter sel : list string) : list string :=
-  flat_map (fun f => sort_str (filter (owns f) sel)) iter.
+  fold_left (fun res f => extend_new res (sort_str (filter (owns f) sel))) iter [].
 
 Inductive ordering := ONone | OAlpha | ORequest | OInvalid.
 
@@ -72,18 +82,12 @@ Fixpoint base_feature (s : string) : string :=
   | String c t => if Ascii.eqb c "~"%char then EmptyString else String c (base_feature t)
   end.
 
-Definition mem_str (x : string) (l : list string) : bool := existsb (String.eqb x) l.
-
 (* base = get_column_base_feature(name); if base != name and base in feature_names_supported(): return base; return name *)
 Definition set_feature_name (supported : list string) (name : string) : string :=
   let b := base_feature name in
   if negb (String.eqb b name) && mem_str b supported then b else name.
 
-(* ---------- decidable descriptions of the known-defect domains (see Props/C03.v) ---------- *)
-(* two different requested names own the same available column (e.g. "m" and "m~1" with column "m~1") *)
-Definition kf_overlap (req cols : list string) : bool :=
-  existsb (fun c => existsb (fun f => existsb (fun g => negb (String.eqb f g) && owns f c && owns g c) req) req) cols.
-
+(* ---------- decidable description of the known-defect domain (see Props/C03.v) ---------- *)
 (* a sub-column request name~x that set_feature_name rewrites to its base name *)
 Definition kf_subcolumn (supported : list string) (name : string) : bool :=
   negb (String.eqb (base_feature name) name) && mem_str (base_feature name) supported.
